@@ -316,6 +316,23 @@ theorem zipWith3_getElem? {β γ δ ε : Type} (f : β → γ → δ → ε) (a 
           simp only [zipWith3, List.getElem?_cons_succ]
           exact ih b c k ha hb hc
 
+theorem addBroadcast_isOk (a : Stack α) (b : List (V3 α)) :
+    (∃ a', addBroadcast a b = .ok a') ↔ (b.length = a.length ∨ b.length = 1) := by
+  unfold addBroadcast
+  split
+  · rename_i h; exact ⟨fun _ => Or.inl h, fun _ => ⟨_, rfl⟩⟩
+  · rename_i h
+    split
+    · exact ⟨fun _ => Or.inr rfl, fun _ => ⟨_, rfl⟩⟩
+    · rename_i hne
+      constructor
+      · rintro ⟨a', h'⟩; cases h'
+      · rintro (h1 | h1)
+        · exact absurd h1 h
+        · obtain ⟨t, rfl⟩ := List.length_eq_one_iff.mp h1
+          exact absurd rfl (hne t)
+
+
 end Modelwise
 
 /-! ## Anchor bookkeeping -/
